@@ -482,7 +482,7 @@ PROPS["C04"] = {
     "level_text": ("PARTIAL. Lean: theorems about one step of the descriptor-driven traversal of the specification decoder "
                    "(fetch_consumes, refuse, fetch_again, fetch_twice, fetch_own). forward / downgrade / refuse for all "
                    "pairs are NOT proved; they are evaluated on code generated for both versions, both directions, with the "
-                   "Lean decoder as independent oracle. downgrade is FALSE on the current code (known finding "
-                   "downgrade-presence-overflow)."),
+                   "Lean decoder as independent oracle. The two defects this found (downgrade-presence-overflow, "
+                   "too-new-descriptor-accepted-via-multimap-key) are repaired in /repo (891ea3b, 6e4a662) and tracked as fixed."),
 }
 
